@@ -74,8 +74,12 @@ type World struct {
 	flowsJudged, flowsDenied, flowsAllowed int
 	followUpDone                           bool
 	c16Skipped                             bool
+	// D8's aftermath: a rule batch was refused ("Too many links" / missing jump target) and no full synchronisation
+	// has run through without a refusal since (DeletePolicy writes the pod chains BEFORE it creates missing policy
+	// chains, so the damage of a refused AddPolicy rebuild outlives the next handler)
+	damaged, rebuildRunning, rebuildClean, damagedAtStart bool
 	convK0                                 *Observed // C15: state a full synchronisation of the history started from
-	convPending                            bool
+	convPending, convPendingNow            bool
 	convWhat                               string
 	typeConflict                           bool     // an ipset create was refused because the name is taken by a set of another type
 	changed2                               []string // commands of the second synchronisation that changed kernel state
@@ -442,6 +446,12 @@ func (w *World) Actions() []core.Action {
 	}
 	if !w.ready || w.busy() || w.stage != 0 {
 		return nil
+	}
+	if w.rebuildRunning {
+		w.rebuildRunning = false
+		if w.rebuildClean {
+			w.damaged = false
+		}
 	}
 	if w.convPending {
 		w.checkSyncConverged()
